@@ -198,6 +198,12 @@ class ExprMixin:
             from .engine import BoundSym
             if isinstance(py, BoundSym):
                 raise Unsupported('attribute of bound method')
+            if isinstance(py, types.ModuleType):
+                sg = self.reg.symbolic_globals.get(f'{py.__name__}:{attr}')
+                if sg is not None:
+                    # a mutable module-level setting: any value of its kind
+                    kk = parse_kind(sg)
+                    return self.wf_value(SV(kk, z3.Const(f'G_{py.__name__}.{attr}', sort_of(kk))))
             try:
                 raw = inspect.getattr_static(py, attr) if inspect.isclass(py) else getattr(py, attr)
             except AttributeError:
@@ -594,6 +600,19 @@ class ExprMixin:
                 return self.identical(a, b)
             if self.term_mode and ka == kb:
                 return a.t == b.t
+            if self.term_mode:
+                # opt[T] == T' : equal iff not None and payloads equal; both opt: both None or both equal
+                def parts(v):
+                    if v.kind.name == 'opt':
+                        os_ = sort_of(v.kind)
+                        return os_.is_some(v.t), SV(v.kind.args[0], os_.val(v.t))
+                    return z3.BoolVal(True), v
+                sa, pa = parts(a)
+                sb, pb = parts(b)
+                both = z3.And(sa, sb, self.equal(pa, pb))
+                if ka.name == 'opt' and kb.name == 'opt':
+                    return z3.Or(z3.And(z3.Not(sa), z3.Not(sb)), both)
+                return both
             a, b = self.force(a), self.force(b)
             ka, kb = a.kind, b.kind
         if ka == NONE or kb == NONE:
